@@ -76,6 +76,16 @@ UNITS.append(dict(
 ))
 
 UNITS.append(dict(
+    id="oh.coordinates",
+    package="",
+    owner="opening-hours/src/localization/coordinates.rs",
+    harness="kani/oh/verif_coordinates.rs",
+    modname="verif_coordinates",
+    modpath="localization::coordinates::verif_coordinates",
+    deps=["syntax.extended_time"],
+))
+
+UNITS.append(dict(
     id="oh.time_filter",
     package="",
     owner="opening-hours/src/filter/time_filter.rs",
@@ -204,6 +214,19 @@ PROPS = {
             "'No reported interval starts before the requested start or ends after min(requested end, 10000-01-01T00:00); next_change never returns an instant at or beyond 10000-01-01' - these live in closures applied to the interval iterator's output: not decided",
         ],
         trusted_base=_TB_COMMON + ["contract model of rule_sequence_schedule_at (contributes nothing or a whole-day open schedule with a comment)"],
+        assumptions=[],
+    ),
+    "C11": dict(
+        level="other",
+        technique="Kani full-domain contract harnesses: Coordinates::new over all f64 pairs, default sun-event times",
+        level_text="Partial: two of the four sentences. 'Without coordinates, dawn, sunrise, sunset and dusk are 06:00, 07:00, 19:00 and 20:00 on every date': the default Localize::event_time through TimeEvent::as_naive for all four events x all dates (complete). 'A coordinate pair is accepted iff latitude is in [-90, 90], longitude in [-180, 180] and neither is NaN': Coordinates::new (which runs the real sunrise::Coordinates::new) for all 2^128 pairs of f64 bit patterns, and lat()/lon() return the accepted pair bit for bit (complete). The physical ordering of the events computed from coordinates, zone inference and 'every accepted pair yields a zone and evaluates' are not decided.",
+        level_note="CBMC's IEEE-754 semantics for f64 comparisons and is_nan are trusted. The sunrise crate's solar geometry (f64 trigonometry) and the tzf-rs polygon lookup are outside both back ends; nothing is claimed about them.",
+        explanation="PARTIAL: coordinate acceptance and default event times only; the ordering of computed sun events is undecided.",
+        undecided_clauses=[
+            "'With coordinates of latitude within 60 degrees and the zone inferred from them, on every date the local event times satisfy dawn < sunrise < solar noon < sunset < dusk, so sunrise-sunset is open at solar noon and closed at solar midnight' - f64 trigonometry in the external sunrise crate and zone inference from a polygon database: not decided",
+            "'every accepted pair yields a zone and evaluates' (TzLocation::from_coords / Context::from_coords over the tzf-rs database): not decided",
+        ],
+        trusted_base=_TB_COMMON + ["sunrise 1.2.1 Coordinates::new executed as real code by CBMC"],
         assumptions=[],
     ),
     "C14": dict(
